@@ -96,3 +96,151 @@ Proof.
   inversion H; subst. destruct (k =s k0) eqn:E; seq; [|auto].
   exfalso. apply H2. change k0 with (fst (k0, v)). apply in_map, Hin.
 Qed.
+
+(* ================= well-formed API stores ================= *)
+Definition keyed {A} (key : A -> string) (m : amap A) : Prop :=
+  nodupk m /\ forall k v, In (k, v) m -> key v = k.
+
+Definition api_wf (a : api) : Prop :=
+  keyed n_name (a_nodes a) /\ keyed c_name (a_claims a) /\ keyed p_key (a_pods a).
+
+Lemma in_adel {A} (k k' : string) (v : A) m : In (k', v) (adel k m) -> In (k', v) m.
+Proof. unfold adel. rewrite filter_In. tauto. Qed.
+
+Lemma keyed_aset {A} (key : A -> string) v m : keyed key m -> keyed key (aset (key v) v m).
+Proof.
+  intros [H1 H2]. split; [apply nodupk_aset, H1|].
+  intros k v' [[= <- <-]|Hin]; [reflexivity|]. apply H2. eapply in_adel, Hin.
+Qed.
+
+Lemma keyed_adel {A} (key : A -> string) k m : keyed key m -> keyed key (adel k m).
+Proof.
+  intros [H1 H2]. split; [apply nodupk_adel, H1|]. intros k' v Hin. apply H2. eapply in_adel, Hin.
+Qed.
+
+Lemma keyed_nil {A} (key : A -> string) : keyed key [].
+Proof. split; [constructor|intros k v []]. Qed.
+
+Lemma api_wf_step a o : api_wf a -> api_wf (api_step a o).
+Proof.
+  intros (Hn & Hc & Hp). destruct o; simpl; try (repeat split; assumption);
+  unfold api_wf; simpl; repeat split; try assumption;
+  first [apply keyed_aset; assumption | apply keyed_adel; assumption].
+Qed.
+
+Lemma api_wf_0 : api_wf api0.
+Proof. repeat split; try constructor; intros k v []. Qed.
+
+(* ================= populateResourceRequests ================= *)
+Definition on_node (name : string) (p : podobj) : bool := (p_node p =s name) && negb (p_term p).
+
+Definition pop_sn (name : string) (s : snode) (kp : string * podobj) : snode :=
+  if on_node name (snd kp) then update_for_pod s (snd kp) else s.
+
+Lemma fst_populate name l s c :
+  fst (fold_left (populate_step name) l (s, c)) = fold_left (pop_sn name) l s.
+Proof.
+  revert s c. induction l as [|kp l IH]; intros s c; simpl; [reflexivity|].
+  unfold populate_step at 2, pop_sn at 2, on_node. simpl.
+  destruct ((p_node (snd kp) =s name) && negb (p_term (snd kp))); apply IH.
+Qed.
+
+Definition lookup_on (name key : string) (l : amap podobj) : option podobj :=
+  match aget key l with Some p => if on_node name p then Some p else None | None => None end.
+
+Lemma lookup_on_cons name key k p l :
+  lookup_on name key ((k, p) :: l) =
+  if key =s k then (if on_node name p then Some p else None) else lookup_on name key l.
+Proof. unfold lookup_on; simpl. destruct (key =s k); reflexivity. Qed.
+
+Lemma keyed_cons_inv {A} (key : A -> string) k v (l : amap A) :
+  keyed key ((k, v) :: l) -> key v = k /\ aget k l = None /\ keyed key l.
+Proof.
+  intros [H1 H2]. inversion H1; subst. repeat split.
+  - apply H2. left; reflexivity.
+  - apply aget_none_notin. assumption.
+  - assumption.
+  - intros k' v' Hin. apply H2. right; assumption.
+Qed.
+
+Lemma lookup_on_none name key l : aget key l = None -> lookup_on name key l = None.
+Proof. unfold lookup_on. intros ->. reflexivity. Qed.
+
+Lemma pop_pods name l : keyed p_key l -> forall s key,
+  aget key (sn_pods (fold_left (pop_sn name) l s)) =
+  match lookup_on name key l with Some p => Some (pent_of p) | None => aget key (sn_pods s) end.
+Proof.
+  induction l as [|[k p] l IH]; intros Hk s key; simpl; [reflexivity|].
+  destruct (keyed_cons_inv _ _ _ _ Hk) as (Hkey & Hnone & Hk').
+  rewrite (IH Hk'), lookup_on_cons. unfold pop_sn; simpl.
+  destruct (key =s k) eqn:E; seq.
+  - rewrite (lookup_on_none _ _ _ Hnone).
+    destruct (on_node name p); simpl; [rewrite Hkey, aget_aset_same|]; reflexivity.
+  - destruct (lookup_on name key l); [reflexivity|].
+    destruct (on_node name p); simpl; [rewrite Hkey, aget_aset_other by assumption|]; reflexivity.
+Qed.
+
+Lemma pop_dsr name l : keyed p_key l -> forall s key,
+  aget key (sn_dsr (fold_left (pop_sn name) l s)) =
+  match lookup_on name key l with
+  | Some p => if p_ds p then Some (p_req p, p_lim p) else aget key (sn_dsr s)
+  | None => aget key (sn_dsr s)
+  end.
+Proof.
+  induction l as [|[k p] l IH]; intros Hk s key; simpl; [reflexivity|].
+  destruct (keyed_cons_inv _ _ _ _ Hk) as (Hkey & Hnone & Hk').
+  rewrite (IH Hk'), lookup_on_cons. unfold pop_sn; simpl.
+  destruct (key =s k) eqn:E; seq.
+  - rewrite (lookup_on_none _ _ _ Hnone).
+    destruct (on_node name p); simpl; [|reflexivity].
+    destruct (p_ds p); [rewrite Hkey, aget_aset_same|]; reflexivity.
+  - assert (Hs : aget key (sn_dsr (if on_node name p then update_for_pod s p else s)) = aget key (sn_dsr s)).
+    { destruct (on_node name p); simpl; [|reflexivity].
+      destruct (p_ds p); [rewrite Hkey, aget_aset_other by assumption|]; reflexivity. }
+    rewrite Hs. reflexivity.
+Qed.
+
+Lemma pop_costs name l : keyed p_key l -> forall s key,
+  aget key (sn_costs (fold_left (pop_sn name) l s)) =
+  match lookup_on name key l with
+  | Some p => if p_ds p then aget key (sn_costs s) else if 0 <? p_cost p then Some (p_cost p) else None
+  | None => aget key (sn_costs s)
+  end.
+Proof.
+  induction l as [|[k p] l IH]; intros Hk s key; simpl; [reflexivity|].
+  destruct (keyed_cons_inv _ _ _ _ Hk) as (Hkey & Hnone & Hk').
+  rewrite (IH Hk'), lookup_on_cons. unfold pop_sn; simpl.
+  destruct (key =s k) eqn:E; seq.
+  - rewrite (lookup_on_none _ _ _ Hnone).
+    destruct (on_node name p); simpl; [|reflexivity].
+    destruct (p_ds p); [reflexivity|].
+    destruct (0 <? p_cost p); [rewrite Hkey, aget_aset_same|rewrite Hkey, aget_adel_same]; reflexivity.
+  - assert (Hs : aget key (sn_costs (if on_node name p then update_for_pod s p else s)) = aget key (sn_costs s)).
+    { destruct (on_node name p); simpl; [|reflexivity].
+      destruct (p_ds p); [reflexivity|].
+      destruct (0 <? p_cost p); [rewrite Hkey, aget_aset_other by assumption|rewrite Hkey, aget_adel_other by assumption]; reflexivity. }
+    rewrite Hs. reflexivity.
+Qed.
+
+Lemma mem_app v l1 l2 : mem v (l1 ++ l2) = mem v l1 || mem v l2.
+Proof. unfold mem. apply existsb_app. Qed.
+
+Lemma pop_vun name l s v :
+  mem v (sn_vun (fold_left (pop_sn name) l s)) =
+  mem v (sn_vun s) || existsb (fun kp => on_node name (snd kp) && mem v (p_vols (snd kp))) l.
+Proof.
+  revert s. induction l as [|[k p] l IH]; intros s; simpl; [rewrite orb_false_r; reflexivity|].
+  rewrite IH. unfold pop_sn; simpl. destruct (on_node name p); simpl.
+  - rewrite mem_app, orb_assoc. reflexivity.
+  - reflexivity.
+Qed.
+
+Lemma pop_ident name l s :
+  sn_node (fold_left (pop_sn name) l s) = sn_node s /\
+  sn_claim (fold_left (pop_sn name) l s) = sn_claim s /\
+  sn_marked (fold_left (pop_sn name) l s) = sn_marked s.
+Proof.
+  revert s. induction l as [|kp l IH]; intros s; simpl; [auto|].
+  destruct (IH (pop_sn name s kp)) as (H1 & H2 & H3). rewrite H1, H2, H3.
+  unfold pop_sn. destruct (on_node name (snd kp)); simpl; auto.
+Qed.
